@@ -380,6 +380,15 @@ def fn_field(case, ctx):
                          f"features are off but interior edges {sorted(lib_fe - border_e)[:5]} are constrained"):
             return
 
+    # a constraint is a frame: unit modulus on every constrained element
+    if fixed:
+        m0 = np.abs(var0[fixed])
+        badc = [fixed[k] for k in np.where(np.abs(m0 - 1.0) > TOL_UNIT)[0]]
+        if not ctx.check(not badc, "constraint-not-unit",
+                         f"after initialize() the constrained {elements} {badc[:8]} carry |var| = {[float(abs(var0[k])) for k in badc[:8]]} "
+                         f"(order {order}, smooth_normals {bool(case['smooth_normals'])})"):
+            return
+
     # operators as the library defines them (connection may have been corrected by initialize())
     L = A = None
     if free:
@@ -433,7 +442,7 @@ def fn_field(case, ctx):
             ctx.discard("vanishing element, replica ill-conditioned")
             bad_van = np.array([], dtype=int)
         ctx.label("vanishing-element")
-        if not ctx.check(len(bad_van) == 0, "zero-modulus",
+        if not ctx.check(len(bad_van) == 0, "zero-modulus:" + ("constrained-solve" if fixed else "eigen-solve"),
                          f"|var| = 0 on {elements} {bad_van[:8].tolist()} although the un-normalised solution does not vanish there "
                          f"(order {order})"):
             return
